@@ -11,6 +11,8 @@ on which other kernels were compiled earlier in the same process:
     {1,2}^n x every helper argument; DataFrame.aggregate under USE_NUMBA=True
     is compared with USE_NUMBA=False: values (tolerance), missing positions,
     result dtype.
+(c) same call: every ordered pair of helpers on the same column in ONE aggregate call (the kernels share the
+    group-sorted column), compared in the same way on a battery of frames.
 (b) histories (E3): a history is a sequence of <= 2 processes, each first-using
     a sequence of (helper, dtype) over a shared private cache directory, with
     USE_NUMBA_CACHE on or off. After every first-use, a fixed battery of frames
@@ -39,8 +41,8 @@ ASSUMPTIONS = [
     "std/var with ddof != 0 never use Numba (by design of the library) and are compared all the same",
 ]
 BOUND = {
-    "quick": "(a) 1..3 rows x groups {1,2}^n over 3-4 value alphabets for every (helper, dtype in bool,int,float,date,datetime) pair it accepts; (b) all ordered pairs of 9 first-uses (7 kernel-family representatives on float64 + first/int64, max/date, mode/bool): one process with cache off; the 30 ordered pairs of 6 of them split across two processes sharing a cache",
-    "thorough": "(a) 1..4 rows; (b) all ordered pairs of all 16 helpers on each of float/int/bool/date x cache {off, cold, warmed by an earlier process}; all ordered triples of the 7 representatives; all ordered cross-dtype pairs of the representatives",
+    "quick": "(c) every ordered pair of helpers in one aggregate call on float/int/date x 16 battery frames x 2x2 argument choices; (a) 1..3 rows (mode: 1..4) x groups {1,2}^n over 3-4 value alphabets for every (helper, dtype in bool,int,float,date,datetime) pair it accepts; (b) all ordered pairs of 9 first-uses (7 kernel-family representatives on float64 + first/int64, max/date, mode/bool): one process with cache off; the 30 ordered pairs of 6 of them split across two processes sharing a cache",
+    "thorough": "(c) as quick on all five dtypes; (a) 1..4 rows; (b) all ordered pairs of all 16 helpers on each of float/int/bool/date x cache {off, cold, warmed by an earlier process}; all ordered triples of the 7 representatives; all ordered cross-dtype pairs of the representatives",
 }
 TIME_CAP = {"quick": 600, "thorough": 6000}
 MAXTASKS = None
@@ -85,7 +87,14 @@ def shards(tier):
     for h in HELPERS:
         for k in KINDS:
             if accepts(h, k):
-                out.append({"mode": "inputs", "helper": h, "kind": k, "n": n})
+                # mode needs a 4-element group for a tie between two values that each occur twice
+                out.append({"mode": "inputs", "helper": h, "kind": k, "n": max(n, 4) if h == "mode" else n})
+    # (c) two helpers in the SAME aggregate call: every ordered pair, so that one kernel's side effects
+    #     on the shared group-sorted column are seen by the other
+    for k in (["f8", "i8", "D"] if tier == "quick" else KINDS):
+        hs = [h for h in HELPERS if accepts(h, k)]
+        for i in range(0, len(hs), 4):
+            out.append({"mode": "samecall", "helpers": hs[i:i + 4], "kind": k})
     if tier == "quick":
         fus = REPS + EXTRA
         for a, b in itertools.permutations(fus, 2):
@@ -139,7 +148,7 @@ def merge(rec, res, case_base):
 def run_one(spec, rec):
     scratch = tempfile.mkdtemp(prefix="c08-", dir=os.environ.get("MC_SCRATCH"))
     try:
-        if spec["mode"] == "inputs":
+        if spec["mode"] in ("inputs", "samecall"):
             res = spawn(spec, os.path.join(scratch, "cache"), False)
             merge(rec, res, spec)
             return res
@@ -161,6 +170,8 @@ def run_shard(shard, rec):
     res = run_one(shard, rec)
     if shard["mode"] == "history":
         rec.sample({"history": shard, "compiled_signatures": res.get("signatures")})
+    elif shard["mode"] == "samecall":
+        rec.sample({"samecall": shard, "pairs": res.get("pairs")})
     else:
         rec.sample({"inputs": shard, "frames": res.get("frames"), "compiled_signatures": res.get("signatures")})
 
@@ -289,6 +300,20 @@ def worker():
             compare(kind, toks, groups, calls,
                     lambda hh, kw, toks=toks, groups=groups: {"mode": "inputs", "helper": hh, "kind": kind, "toks": toks, "groups": groups, "kwargs": kw, "n": len(toks)})
         res["frames"] = len(frames)
+    elif spec["mode"] == "samecall":
+        kind = spec["kind"]
+        frames = [(spec["toks"], spec["groups"])] if "toks" in spec else battery(kind) + [(list(reversed(t)), list(reversed(g))) for t, g in battery(kind)]
+        npairs = 0
+        for h1 in spec["helpers"]:
+            others = [spec["second"]] if "second" in spec else [h for h in HELPERS if h != h1 and accepts(h, kind)]
+            for h2 in others:
+                for pick in (0, -1):
+                    kw1, kw2 = arg_menu(h1)[pick], arg_menu(h2)[pick]
+                    npairs += 1
+                    for toks, groups in frames:
+                        compare(kind, toks, groups, [(h1, kw1), (h2, kw2)],
+                                lambda hh, kw, toks=toks, groups=groups, h1=h1, h2=h2: {"mode": "samecall", "helpers": [h1], "second": h2, "kind": kind, "toks": toks, "groups": groups})
+        res["pairs"] = npairs
     else:
         uses, before = spec["uses"], spec["before"]
         history = spec["history"]
